@@ -57,6 +57,7 @@ def make_server(script, retries, delay, clock, trace):
                 self.pending += evs
             else:
                 ok = True
+            clock.ms += script.get('tx_dt', 0)      # a transport whose write takes time (not part of any waiting period)
             trace.append(('T', bytes(data), ok))
             if script.get('drain') and isinstance(data, bytearray):
                 data.clear()          # a transport that consumes the buffer it is given
@@ -73,6 +74,12 @@ def make_server(script, retries, delay, clock, trace):
     s.setup()
     s.set_retries(retries)
     s.set_retry_delay(delay)
+    # refused (out-of-range) configuration calls must leave the configuration as it was
+    for what, val in script.get('bad_cfg', ()):
+        try:
+            (s.set_retries if what == 'retries' else s.set_retry_delay)(val)
+        except AssertionError:
+            pass
     return s
 
 
